@@ -1,4 +1,4 @@
 #!/bin/sh
-cd "$(dirname "$0")" 2>/dev/null
+# run from the /verif root (or a vp run snapshot of it): evaluates every seed in seeded_inbox/ given as arguments
 bin/setup
-for s in C01-1 C02-1 C03-1 C04-1 C05-1 C06-1 C15-1; do echo "=== $s"; tools/seedeval.py seeded_inbox/$s $s --all 2>&1 | tail -32; done
+for s in "$@"; do echo "=== $s"; tools/seedeval.py seeded_inbox/$s $s --all 2>&1 | tail -32; done
